@@ -293,6 +293,22 @@ fn check_scalar_array(r: &mut Run<'_>, xs: &[RVal], family: &str) {
                 r.fail("uniq:differs-from-reference", format!("{xd} | uniq = {d}, reference = {want}"), &replay);
             }
             r.ctx.count("uniq:compared-with-reference");
+        } else if !xd.contains("7ff8") {
+            // cells the statements leave to the value model (booleans vs other kinds, composites):
+            // the *algorithm* is still fixed — keep an element iff it equals no earlier KEPT one —
+            // with equality consulted from the value model through the Rust API (layer 1)
+            let vals: Vec<liquid::model::Value> = xs.iter().map(|v| v.to_liquid()).collect();
+            let mut kept_idx: Vec<usize> = Vec::new();
+            for i in 0..vals.len() {
+                if !kept_idx.iter().any(|&k| liquid::model::ValueViewCmp::new(&vals[k]) == liquid::model::ValueViewCmp::new(&vals[i])) {
+                    kept_idx.push(i);
+                }
+            }
+            let want = arr(kept_idx.iter().map(|&i| xs[i].clone()).collect()).dump();
+            if d != want {
+                r.fail("uniq:differs-from-first-kept-dedup", format!("{xd} | uniq = {d}, first-occurrence dedup against the kept elements (value-model equality) = {want}"), &replay);
+            }
+            r.ctx.count("uniq:compared-with-value-model-dedup");
         }
     } else {
         r.fail("uniq:fails-on-array", format!("{xd} | uniq returned an error"), &replay);
@@ -625,7 +641,7 @@ fn random_array(rng: &mut Rng, len: usize, kind: usize) -> Vec<RVal> {
 pub fn run(ctx: &mut Ctx) {
     ctx.start_watchdog(120);
     let t = templates();
-    let scalars = vec![RVal::Nil, RVal::Int(1), RVal::Float(1.0), RVal::Int(2), RVal::Float(1.5), s("a"), s("B"), s("b")];
+    let scalars = vec![RVal::Nil, RVal::Int(1), RVal::Float(1.0), RVal::Int(2), RVal::Float(1.5), s("a"), s("B"), s("b"), RVal::Bool(true)];
     let cases = vec![s("a"), s("A"), s("b"), s("B"), s("ab"), s("Ab")];
     let max_len = ctx.scale(4usize, 5usize);
     let mut r = Run { ctx, t: &t };
